@@ -99,9 +99,15 @@ def inputs_of(il, seed=0):
             if inp.dtype.kind == "b":
                 data[inp.name] = rng.integers(0, 2, shp).astype(bool)
             elif inp.dtype.kind in "iu":
-                data[inp.name] = rng.integers(1, 5, shp).astype(inp.dtype)
+                v = rng.integers(1, 5, shp).astype(inp.dtype)
+                if v.size and inp.dtype.itemsize >= 4:
+                    # (a value a narrower integer type cannot hold)
+                    v.flat[0] = 70000 + 300
+                data[inp.name] = v
             else:
-                data[inp.name] = (rng.integers(1, 9, shp) / 2).astype(
+                # (halves plus a tenth: not representable in a narrower
+                # float, so a dropped narrowing cast is visible)
+                data[inp.name] = (rng.integers(1, 9, shp) / 2 + 0.1).astype(
                     inp.dtype)
     return data
 
@@ -144,7 +150,8 @@ def _check(il, expect, what):
                        f"apply: {type(e).__name__}: {e}")
     got = np.asarray(got)
     if got.shape != want.shape or not np.allclose(
-            got.astype(np.float64), want.astype(np.float64), equal_nan=True):
+            got.astype(np.complex128), want.astype(np.complex128),
+            rtol=1e-12, atol=0, equal_nan=True):
         reproduced(f"{what}: raised to {op!r:.200}, whose NumPy value differs "
                    f"from the lambda's: {got.tolist()!r:.200} vs "
                    f"{want.tolist()!r:.200}")
@@ -192,7 +199,9 @@ def replay_near_miss(inst):
             try:
                 check(captured["il"], None,
                       f"near miss {inst['label']} (lengths {h.given})")
-            except (ValueError, IndexError):
+            except (ValueError, IndexError, TypeError):
+                # (a hand-built lambda NumPy cannot even evaluate for these
+                # dtypes, e.g. ^ on floats, is not a misreading)
                 continue
     not_reproduced(f"near miss {inst['label']}: no misreading for the tried "
                    "lengths")
